@@ -9,7 +9,7 @@ from vlib.wsgi import FragStream, make_environ, call_app
 
 ID = 'C13'
 LEVEL = 'exploration'
-RULE = ('case = (content kind in {raw body, urlencoded form, JSON, multipart text fields, multipart file part, multipart part with an empty file name, small multipart form followed by an epilogue / preceded by a preamble of S bytes}, max_body_size M in {None, 1, 20, 100, 1000} '
+RULE = ('case = (content kind in {raw body, urlencoded form, JSON, multipart text fields, multipart file part, multipart part with an empty file name, small multipart form followed by an epilogue / preceded by a preamble of S bytes}, max_body_size M in {None, 1, 20, 100, 1000} (handed over as dict, NameSpace, configuration class, class inheriting the limits from an intermediate class, or through setup()), request headers about the connection (keep-alive, close, Expect), '
         'or generated, max_memfile_size B in {1, 8, 33, 64, 256, 4096} (>= 8 for chunked framing: the size-line scanner is bounded by the buffer), body size S '
         'placed at 0, 1, M-1, M, M+1, M+B-1, M+B, M+B+1, 3M, B-1, B, B+1, 2B.. or generated, framing = Content-Length or chunked (optionally with an additional Content-Length header, which the transfer coding overrides) with chunk sizes 1, 3, B, >B, a trailer section of 0-40000 lines after the last chunk (the stream may be pulled at most limit + one buffer beyond the end of the body), a chunk-size line with a minus sign in front of any chunk (an over-limit body must still be refused), '
         'one huge chunk, read fragmentation caps). Oracle from a recording wsgi.input: S > M => 413 and the payload bytes handed out by the stream <= M + B '
@@ -97,13 +97,30 @@ def payload_consumed(layout, pos):
 
 def check_case(ctx, case):
     import ombott
+    from ombott.ombott import DefaultConfig
     kind, S, M, B = case['kind'], case['S'], case['M'], case['B']
     body, ctype, want, mem = build_body(kind, S, case)
     total = len(body)
     cfg = {'max_memfile_size': B}
     if M is not None:
         cfg['max_body_size'] = M
-    app = ombott.Ombott(cfg)
+    form = case.get('cfg_form') or 'dict'
+    if form == 'dict':
+        app = ombott.Ombott(cfg)
+    elif form == 'namespace':
+        app = ombott.Ombott(DefaultConfig(cfg))
+    elif form == 'class':
+        app = ombott.Ombott(type('SiteConfig', (DefaultConfig,), dict(cfg)))
+    elif form == 'class2':
+        site = type('SiteConfig', (DefaultConfig,), dict(cfg))                  # the limits are inherited from an intermediate configuration class
+        app = ombott.Ombott(type('Production', (site,), {'debug': False}))
+    elif form == 'setup':
+        app = ombott.Ombott()
+        app.setup(cfg)
+    else:
+        app = ombott.Ombott({'max_memfile_size': 7, 'max_body_size': 1})
+        app.setup(type('Production', (type('SiteConfig', (DefaultConfig,), dict(cfg)),), {'catchall': True}))
+    ctx.count('config_given_as_' + form)
     seen = {}
 
     def h():
@@ -137,6 +154,7 @@ def check_case(ctx, case):
         return 'ok'
     app.route('/u', method='POST', callback=h)
     headers = {'Content-Type': ctype}
+    headers.update(case.get('req_headers') or {})             # connection management / expectation headers have no say in how much may be read
     layout = None
     if case['chunks'] is not None:
         ntrail = case.get('trailer_lines') or 0
@@ -317,6 +335,9 @@ def case_st(draw):
         # multipart bodies carry ~100 bytes of framing: move M along so that the edges are still hit
         M = M + draw(st.sampled_from([0, 60, 101, 120]))
     case = {'kind': kind, 'S': S, 'M': M, 'B': B, 'nparts': draw(st.integers(1, 3)), 'exact_first': draw(st.integers(0, 3)) == 0,
+            'cfg_form': draw(st.sampled_from(['dict', 'dict', 'namespace', 'class', 'class2', 'setup', 'setup_class2'])),
+            'req_headers': draw(st.sampled_from([None, None, {'Connection': 'keep-alive'}, {'Connection': 'Keep-Alive'}, {'Connection': 'close'}, {'Expect': '100-continue'},
+                                                 {'Connection': 'keep-alive', 'Keep-Alive': 'timeout=5'}, {'X-Forwarded-For': '10.0.0.1'}])),
             'chunks': None, 'pattern': draw(st.one_of(st.just([]), st.lists(st.integers(1, 9), min_size=1, max_size=5), st.lists(st.integers(1, 300), min_size=1, max_size=5)))}
     if kind == 'raw' and draw(st.integers(0, 9)) == 0:
         case['tempdir_broken'] = True
@@ -365,6 +386,13 @@ def run(ctx):
                         for val in (1, 0x2710, 0xfffff):
                             ctx.guarded(check_case, {'kind': 'raw', 'S': S, 'M': M, 'B': B, 'nparts': 1, 'chunks': [50] * 300, 'pattern': [], 'neg_line': [j, val]})
         ctx.count('trailer_and_negative_size_grid')
+        # every way of handing the limits to the application x request headers about the connection, far over the limit / just within, both framings
+        for form in ('dict', 'namespace', 'class', 'class2', 'setup', 'setup_class2'):
+            for rh in (None, {'Connection': 'keep-alive'}, {'Connection': 'KEEP-ALIVE'}, {'Connection': 'close'}, {'Expect': '100-continue'}):
+                for S in (64, 65, 200000):
+                    for chunks in (None, [1000]):
+                        ctx.guarded(check_case, {'kind': 'raw', 'S': S, 'M': 64, 'B': 16, 'nparts': 1, 'chunks': chunks, 'pattern': [], 'cfg_form': form, 'req_headers': rh})
+        ctx.count('config_form_and_connection_header_grid')
         for S in (9, 65, 300):
             for chunks in (None, [7]):
                 ctx.guarded(check_case, {'kind': 'raw', 'S': S, 'M': None, 'B': 8, 'nparts': 1, 'chunks': chunks, 'pattern': [], 'tempdir_broken': True})
